@@ -24,8 +24,10 @@ pub fn flush(addr: VirtAddr) {
 #[inline]
 pub fn flush_all() {
     use crate::registers::control::Cr3;
-    let (frame, flags) = Cr3::read();
-    unsafe { Cr3::write(frame, flags) }
+    // Reload CR3 with exactly its current value: the low 12 bits may hold a PCID, which the
+    // typed `Cr3Flags` would truncate (switching the address space to a different PCID).
+    let (frame, value) = Cr3::read_raw();
+    unsafe { Cr3::write_raw(frame, value) }
 }
 
 /// The Invalidate PCID Command to execute.
